@@ -23,6 +23,7 @@ RULE = (
     "or recording tasks in sibling scopes; distinct = distinct program"
 )
 RULE += '; the same State instance may be recorded twice into one scope'
+RULE += '; template: block left, scope not yet completed (nested scope held open), another task records into it'
 LEVEL_TEXT = (
     "Reference fold: the harness logs (scope, type, id, merge) for every record in execution order; in each scope's "
     "completion callback read(T) must equal the left fold of that scope's own records and metrics(merge=m) the "
@@ -230,7 +231,24 @@ def strategy(tier):
         body = [*draw(st.lists(rec, max_size=1)), *kids, *draw(st.lists(rec, max_size=1))]
         return {"body": [{"k": "scope", "mode": "async", "name": "root", "state": [], "disp": None, "disp_obj": False, "completion": "sync", "body": body}]}
 
-    return st.one_of(root, root, root, wide())
+    @st.composite
+    def left_but_pending(draw):
+        """a scope whose block has been LEFT but which has not completed yet (a nested scope is held open by a spawned task):
+        a task that inherited it records in that window - the scope is still the innermost one for that task and has not
+        completed, so the record belongs to it like any earlier one"""
+        mode = draw(st.sampled_from(["sync", "sync", "async"]))
+        hold = draw(st.sampled_from([1, 2]))
+        mk = lambda name, mode, body: {"k": "scope", "mode": mode, "name": name, "state": [], "disp": None, "disp_obj": False, "completion": "sync", "body": body}  # noqa: E731
+        keeper = {"k": "spawn", "via": "asyncio" if mode == "async" else draw(st.sampled_from(["ctx", "asyncio"])),
+                  "body": [mk("n", "sync", [*draw(st.lists(rec, max_size=1)), {"k": "sleep", "t": hold}, *draw(st.lists(rec, max_size=1))])]}  # fmt: skip
+        late = {"k": "spawn", "via": "asyncio" if mode == "async" else draw(st.sampled_from(["ctx", "asyncio"])),
+                "body": [{"k": "sleep", "t": draw(st.sampled_from([0.25, 0.5]))}, *draw(st.lists(rec, min_size=1, max_size=3))]}  # fmt: skip
+        # the block suspends once after starting the tasks, so that the keeper opens its nested scope while the block is active
+        inner = mk("s", mode, [*draw(st.lists(rec, max_size=2)), keeper, late, {"k": "sleep", "t": 0.125}, *draw(st.lists(rec, max_size=1))])
+        body = [*draw(st.lists(rec, max_size=1)), inner, {"k": "sleep", "t": hold + 1}, *draw(st.lists(rec, max_size=1))]
+        return {"body": [mk("root", "async", body)]}
+
+    return st.one_of(root, root, root, wide(), left_but_pending())
 
 
 def budget(tier):
